@@ -226,6 +226,8 @@ struct InstSpec {
     reader: ReaderSpec,
     keep_writer: bool,
     answer_delay: u32,
+    /// The agent dies in the middle of writing a frame: a strict prefix of one more frame, then the channel closes.
+    end_mid_frame: bool,
 }
 
 #[derive(Clone, Debug)]
@@ -422,6 +424,7 @@ fn gen_world(rng: &mut Rng, pool: &[String], raw: bool) -> World {
                     reader: g.reader(k < 2),
                     keep_writer: g.rng.bool(),
                     answer_delay: if g.rng.chance(1, 3) { g.rng.range(1, 10) as u32 } else { 0 },
+                    end_mid_frame: g.rng.chance(1, 6),
                 });
             }
             nodes.push(NodeSpec { name: name.clone(), instances });
@@ -546,6 +549,8 @@ struct LogInner {
     attach_unconfirmed: u64,
     /// Fragmented messages of the raw peer with a control frame between two fragments.
     control_inside_message: u64,
+    /// Agent channels that ended in the middle of a frame.
+    agent_mid_frame_ends: u64,
     /// Set when a logical step budget of the case was exceeded: both tasks are dropped at their
     /// next poll (see `Guard`) and the case is judged on what was observed up to then.
     abort: Option<Abort>,
@@ -821,6 +826,7 @@ async fn resolver(log: Log, side: usize, spec: SideSpec, mut find_rx: mpsc::Rece
                     reader: ReaderSpec { stop_after: None, pace: Pace::Fast },
                     keep_writer: true,
                     answer_delay: 0,
+                    end_mid_frame: false,
                 });
                 yields(inst.answer_delay).await;
                 let (to_agent_tx, to_agent_rx) = byte_channel(nz(inst.in_cap));
@@ -833,7 +839,23 @@ async fn resolver(log: Log, side: usize, spec: SideSpec, mut find_rx: mpsc::Rece
                 let agent_id = Uuid::from_u128(0xa000 + inst.source as u128);
                 let h = tokio::spawn(async move {
                     let mut writer = FramedWrite::new(from_agent_tx, RawResponseMessageEncoder);
-                    run_script(log2, side, inst.source, inst.script, &mut writer, |f: &Frame| f.response(agent_id)).await;
+                    let last_frame = inst.script.iter().rev().find_map(|s| if let Step::Send(f, _) = s { Some(f.clone()) } else { None });
+                    run_script(log2.clone(), side, inst.source, inst.script, &mut writer, |f: &Frame| f.response(agent_id)).await;
+                    if let (true, Some(f)) = (inst.end_mid_frame, last_frame) {
+                        // The agent dies while writing one more frame: the other agents and downlinks of the
+                        // socket must not notice.
+                        use tokio::io::AsyncWriteExt;
+                        use tokio_util::codec::Encoder;
+                        let mut bytes = bytes::BytesMut::new();
+                        if RawResponseMessageEncoder.encode(f.response(agent_id), &mut bytes).is_ok() && bytes.len() > 2 {
+                            let cut = 1 + (inst.source as usize * 7 + inst.in_cap) % (bytes.len() - 1);
+                            let mut raw = writer.into_inner();
+                            let _ = raw.write_all(&bytes[..cut]).await;
+                            log2.lock().unwrap().agent_mid_frame_ends += 1;
+                            drop(raw);
+                        }
+                        return;
+                    }
                     if inst.keep_writer {
                         // Held open until the end of the case.
                         KEEP.with(|k| k.borrow_mut().push(Box::new(writer)));
@@ -1098,6 +1120,9 @@ fn evaluate(world: &World, log: &LogInner, raw: bool, task_stopped_early: bool, 
     let pfx: &'static str = if raw { "socket-raw" } else { "socket" };
     let eps = endpoints(world, raw);
     let ep_index: HashMap<Ep, usize> = eps.iter().enumerate().map(|(i, e)| (e.ep, i)).collect();
+    if log.agent_mid_frame_ends > 0 {
+        out.add("agent-channels-ended-inside-a-frame", log.agent_mid_frame_ends);
+    }
     let mut vd = Verdicts { out, pfx };
 
     for (sig, what, detail) in &log.problems {
